@@ -902,10 +902,157 @@ fn wait_run_begun() {
     }
 }
 
+// ------------------------------------------------------------------------------------------
+// C10 (stream): a StreamSource fed and woken by other threads
+// ------------------------------------------------------------------------------------------
+
+#[derive(Default)]
+struct SS {
+    queue: std::collections::VecDeque<u64>,
+    ended: bool,
+    waker: Option<Waker>,
+}
+
+struct TStream(Arc<Mutex<SS>>);
+
+impl futures_core::Stream for TStream {
+    type Item = u64;
+    fn poll_next(self: std::pin::Pin<&mut Self>, cx: &mut std::task::Context<'_>) -> std::task::Poll<Option<u64>> {
+        let mut s = self.0.lock().unwrap();
+        log(Ev::Poll { task: 1000, th: me() });
+        if let Some(v) = s.queue.pop_front() {
+            return std::task::Poll::Ready(Some(v));
+        }
+        if s.ended {
+            return std::task::Poll::Ready(None);
+        }
+        s.waker = Some(cx.waker().clone());
+        std::task::Poll::Pending
+    }
+}
+
+pub fn c10_stream(p: &Params) {
+    begin_execution();
+    let mut lp = new_loop();
+    let shared = Arc::new(Mutex::new(SS::default()));
+    let src = calloop::stream::StreamSource::new(TStream(shared.clone())).unwrap();
+    lp.handle()
+        .insert_source(src, |ev, _, _| match ev {
+            Some(v) => {
+                log(Ev::Callback { src: "item", payload: v });
+            }
+            None => {
+                log(Ev::Callback { src: "end", payload: 0 });
+            }
+        })
+        .unwrap();
+    let done = Arc::new(AtomicU32::new(0));
+    let mut rng = Rng::new(p.extra as u64 ^ 0x57);
+    let mut joins = Vec::new();
+    let remaining = Arc::new(AtomicU32::new(p.threads));
+    for i in 1..=p.threads {
+        let sh = shared.clone();
+        let done = done.clone();
+        let n = 1 + rng.below(p.ops as u64) as u32;
+        let remaining = remaining.clone();
+        joins.push(shuttle::thread::spawn(move || {
+            register_thread(i);
+            sp();
+            for k in 0..n {
+                let v = ((i as u64) << 32) | k as u64;
+                log(Ev::OpBegin { th: i, op: "push", arg: v });
+                let w = {
+                    let mut s = sh.lock().unwrap();
+                    s.queue.push_back(v);
+                    s.waker.take()
+                };
+                sp();
+                if let Some(w) = w {
+                    w.wake();
+                }
+                log(Ev::OpEnd { th: i, op: "push", arg: v, ok: true });
+                sp();
+            }
+            // the last producer ends the stream
+            if remaining.fetch_sub(1, O::SeqCst) == 1 {
+                log(Ev::OpBegin { th: i, op: "end", arg: 0 });
+                let w = {
+                    let mut s = sh.lock().unwrap();
+                    s.ended = true;
+                    s.waker.take()
+                };
+                sp();
+                if let Some(w) = w {
+                    w.wake();
+                }
+                log(Ev::OpEnd { th: i, op: "end", arg: 0, ok: true });
+            }
+            done.fetch_add(1, O::SeqCst);
+        }));
+        sp();
+    }
+    let h = lp.handle();
+    let finished = pump(&mut lp, &done, p.threads, &|| false);
+    for j in joins {
+        let _ = j.join();
+    }
+    let slots = h.verif_stats().occupied_slots;
+    let evs = T.with(|t| t.borrow().events.clone());
+    let mut pushed: Vec<u64> = Vec::new();
+    let mut items: Vec<(u64, u64)> = Vec::new();
+    let mut ends: Vec<u64> = Vec::new();
+    for (s, e) in &evs {
+        match e {
+            Ev::OpEnd { op: "push", arg, .. } => pushed.push(*arg),
+            Ev::Callback { src: "item", payload } => items.push((*s, *payload)),
+            Ev::Callback { src: "end", .. } => ends.push(*s),
+            Ev::Poll { task: 1000, th } if *th != 0 => violate("stream.polled_off_thread", &["C10"], vec![], format!("the stream was polled on thread {}", th)),
+            _ => {}
+        }
+    }
+    if !finished {
+        violate("exec.stuck", &["C10"], vec!["stream".into()], "producer threads never finished".into());
+    } else {
+        for v in &pushed {
+            let n = items.iter().filter(|(_, x)| x == v).count();
+            if n != 1 {
+                violate(if n == 0 { "stream.lost_item" } else { "stream.duplicate_item" }, &["C10", "C02"], vec![], format!("item {:#x} was pushed (and its wake completed) but delivered {} times - the loop is quiescent", v, n));
+            }
+        }
+        let mut last: std::collections::BTreeMap<u64, u64> = Default::default();
+        for (_, v) in &items {
+            let th = v >> 32;
+            let k = v & 0xffff_ffff;
+            if let Some(prev) = last.get(&th) {
+                if *prev >= k {
+                    violate("stream.reordered", &["C10"], vec![], format!("items of producer {} delivered out of order", th));
+                }
+            }
+            last.insert(th, k);
+        }
+        match ends.len() {
+            1 => {
+                if items.iter().any(|(s, _)| *s > ends[0]) {
+                    violate("stream.after_end", &["C10"], vec![], "an item was delivered after the final None".into());
+                }
+                if slots != 0 {
+                    violate("stream.not_removed_after_end", &["C10", "C06"], vec![], "the stream source stayed in the loop after its final None".into());
+                }
+            }
+            0 => violate("stream.end_missing", &["C10", "C02"], vec![], "the stream ended and its wake completed, the loop is quiescent, but None was never delivered".into()),
+            n => violate("stream.end_twice", &["C10"], vec![], format!("None was delivered {} times", n)),
+        }
+    }
+    drop(h);
+    drop(lp);
+    end_execution();
+}
+
 pub fn run_scenario(p: &Params) {
     match p.scenario.as_str() {
         "C03" => c03(p),
         "C04" => c04(p),
+        "C10" if p.variant >= 6 => c10_stream(p),
         "C10" => c10(p),
         "C11" => c11(p),
         _ => panic!("unknown scenario"),
